@@ -642,9 +642,10 @@ func (c *Cluster) Reconcile(actor, ns, name string) Event {
 		default:
 			ev.Res.ErrKind = "other"
 		}
+		// number of leaf errors (aggregates flattened): every failed API call of the sync must be one of them
 		var agg utilerrors.Aggregate
 		if errors.As(err, &agg) {
-			ev.Res.NErrs = len(agg.Errors())
+			ev.Res.NErrs = len(utilerrors.Flatten(agg).Errors())
 		} else {
 			ev.Res.NErrs = 1
 		}
